@@ -2,6 +2,9 @@
 Driver for stream `vmops` (C13): runs the NeoVM specification model on one script per line.
 
   case <k>                                         -> case <k>
+  skip <k>                                         -> skip <k>
+  conv <fn> <arg>                                  -> ok <dec> | ok <hex> | err   (stackitem/conversion.go:
+        fn = int64 int32 uint8 uint16 uint32 uint64 string uint160 uint256; TryBool/TryBytes/TryInteger: bool bytes integer)
   run <gasLimit|-1> <priced 0|1> <script-hex> <arg>*  -> HALT gas=<n> [<item> ...]   (top of stack first)
                                                      | FAULT gas=<n>
                                                      | TIMEOUT
@@ -136,10 +139,58 @@ def runLine (gas priced script : String) (args : List String) : String :=
     | _ => "TIMEOUT"
   | none => "bad-op"
 
+/-- does the heap contain a cycle among compound objects (reachable or garbage)? colours:
+0 = unvisited, 1 = on the DFS path, 2 = done. -/
+partial def heapHasCycle (h : Heap) : Bool :=
+  let kids (id : Nat) : List Nat :=
+    match h[id]? with
+    | some o => o.children.filterMap Item.compoundId
+    | none => []
+  let rec visit (id : Nat) (col : Array UInt8) : Bool × Array UInt8 :=
+    match col.getD id 2 with
+    | 1 => (true, col)
+    | 2 => (false, col)
+    | _ =>
+      let col := col.setIfInBounds id 1
+      let (cyc, col) := (kids id).foldl (fun (acc : Bool × Array UInt8) k =>
+        if acc.1 then acc else visit k acc.2) (false, col)
+      (cyc, col.setIfInBounds id 2)
+  let (cyc, _) := (List.range h.size).foldl (fun (acc : Bool × Array UInt8) id =>
+    if acc.1 then acc else visit id acc.2) (false, Array.replicate h.size 0)
+  cyc
+
 def step (ws : List String) : String :=
   match ws with
   | ["case", k] => s!"case {k}"
+  | ["skip", k] => s!"skip {k}"     -- a case the harness keeps out of the correspondence (known finding)
   | "run" :: gas :: priced :: script :: args => runLine gas priced script args
+  | "runx" :: gas :: priced :: script :: args =>
+    -- extended answer for the harness' own oracle: reference count of the specification and
+    -- whether any cycle of compound objects was ever built (garbage included)
+    match runVm gas priced script args with
+    | some v => runLine gas priced script args ++ s!" | refs={reach v} cyc={if heapHasCycle v.heap then 1 else 0}"
+    | none => "bad-op"
+  | ["conv", fn, a] =>
+    -- stackitem/conversion.go on one primitive item
+    match parseArg #[] a with
+    | none => "bad-op"
+    | some (h, x) =>
+      let showI (o : Option Int) : String := match o with | some n => s!"ok {n}" | none => "err"
+      let showB (o : Option Bytes) : String := match o with | some b => "ok " ++ Hex.encode b | none => "err"
+      match fn with
+      | "int64" => showI (x.toIntBounded (-(2:Int)^63) ((2:Int)^63 - 1))
+      | "int32" => showI (x.toIntBounded (-(2:Int)^31) ((2:Int)^31 - 1))
+      | "uint8" => showI (x.toIntBounded 0 255)
+      | "uint16" => showI (x.toIntBounded 0 65535)
+      | "uint32" => showI (x.toIntBounded 0 ((2:Int)^32 - 1))
+      | "uint64" => showI (x.toIntBounded 0 ((2:Int)^64 - 1))
+      | "string" => showB (x.toUtf8 h)
+      | "uint160" => showB (x.toFixedBytes h 20)
+      | "uint256" => showB (x.toFixedBytes h 32)
+      | "bool" => match x.toBool with | some b => s!"ok {if b then 1 else 0}" | none => "err"
+      | "bytes" => showB (x.toBytes h)
+      | "integer" => showI x.toInteger
+      | _ => "bad-op"
   | "why" :: gas :: priced :: script :: args =>
     -- debugging aid: the fault message of the model
     match runVm gas priced script args with
